@@ -393,6 +393,38 @@ pub fn run(ctx: &Ctx) -> Report {
     });
     st = st.merge(st_h);
 
+    // consecutive timestamps whose instants are exactly 2^16, 2^31, 2^32, 2 x 2^32 or 2^33 seconds apart (what collides when
+    // an instant is narrowed to a smaller integer), evaluated one after the other with nothing else running in this
+    // process: A, B, A again -- each string-to-sign line is that of its own instant
+    {
+        let mut seq = Stats::new();
+        let bases = [Instant::new(0, 0), e2e::base_instant(), Instant::from_civil(1970, 1, 1, 0, 0, 1, 0), Instant::from_civil(2000, 2, 29, 23, 59, 59, 0)];
+        let mut k = 0u64;
+        for b in bases {
+            for d in [1i64 << 16, 1 << 31, 1 << 32, 2 << 32, 1 << 33, (1 << 32) + 1, -(1i64 << 32), -(1i64 << 31)] {
+                let other = Instant::new(b.secs + d, 0);
+                if !(1..=9998).contains(&other.year()) || !(1..=9998).contains(&b.year()) {
+                    continue;
+                }
+                for (step, t) in [b, other, b].into_iter().enumerate() {
+                    let text = t.compact();
+                    let before = seq.violations.len();
+                    eval(n * 8 + k, &text, &mut seq);
+                    k += 1;
+                    if seq.violations.len() > before {
+                        if let Some(v) = seq.violations.last_mut() {
+                            v.what = format!("{} (step {} of the sequence {} , {} , {}: instants {} s apart)", v.what, step, b.compact(), other.compact(), b.compact(), d);
+                            v.case["preceded_by"] = json!(if step == 0 { "".to_string() } else if step == 1 { b.compact() } else { other.compact() });
+                        }
+                    }
+                }
+                seq.nontrivial(&("power-of-two-apart", b.secs, d));
+            }
+        }
+        seq.outcome("history:power-of-two-apart");
+        st = st.merge(seq);
+    }
+
     // end to end on both carriers (header: also with surrounding spaces)
     let st_e = par_sweep(n * 4, |i, st| {
         let s = &strings[(i / 4) as usize];
@@ -495,7 +527,7 @@ pub fn run(ctx: &Ctx) -> Report {
 
     Report {
         stats: st,
-        rule: "every value 00..99 of month, day, hour, minute, second, offset hour and offset minute (basic and extended form); 9 years x boundary instants; every day 00..32 of every month of 2015, 2016, 1900, 2000 in two forms; the full product of boundary values of month/day (10 pairs) x hour (5) x minute (5) x second (5, incl. 60 and 61) x 10 zones; all 2^5 separator combinations; every offset hh(00..99) x mm(00..99) x sign (basic; extended for all in thorough); 12 zone designators; all 2^5 combinations of blank-padded / one-digit fields in four layouts; fractions of 0..12 and 13..10000 digits with '.' and ','; every string at edit distance 1 (insert/delete/substitute over 23 characters incl. 3 non-ASCII) from six bases (thorough: also every pair of substitutions and substitution+insertion on two bases); five well-formed timestamps followed by one of 10 separators (',', ', ', blank, ';', '/', tab, none, ...) and a second timestamp — itself again once or twice, or another one; the same five with each character written as a percent-escape (the text of a value decoded once too rarely — on the query carrier it arrives as %25XX) and with truncated escapes appended; every ordered pair over ~70 related strings (six well-formed timestamps and their look-alikes: separators removed / added, zone dropped, case, blanks, one digit changed) parsed back to back on one thread; each string is evaluated through the unstable API (value and string-to-sign line compared with the reference parser) and end to end on the header carrier (bare, space-padded, and next to a Date header holding a well-formed fresh timestamp) and the query carrier; two or three validations whose requests differ only in the timestamp are multiplexed on one thread against a provider that is Pending first, in every order of polls (each verified against its own timestamp line). states = distinct reference instants + reject class; non-trivial = distinct strings".into(),
+        rule: "every value 00..99 of month, day, hour, minute, second, offset hour and offset minute (basic and extended form); 9 years x boundary instants; every day 00..32 of every month of 2015, 2016, 1900, 2000 in two forms; the full product of boundary values of month/day (10 pairs) x hour (5) x minute (5) x second (5, incl. 60 and 61) x 10 zones; all 2^5 separator combinations; every offset hh(00..99) x mm(00..99) x sign (basic; extended for all in thorough); 12 zone designators; all 2^5 combinations of blank-padded / one-digit fields in four layouts; fractions of 0..12 and 13..10000 digits with '.' and ','; every string at edit distance 1 (insert/delete/substitute over 23 characters incl. 3 non-ASCII) from six bases (thorough: also every pair of substitutions and substitution+insertion on two bases); five well-formed timestamps followed by one of 10 separators (',', ', ', blank, ';', '/', tab, none, ...) and a second timestamp — itself again once or twice, or another one; the same five with each character written as a percent-escape (the text of a value decoded once too rarely — on the query carrier it arrives as %25XX) and with truncated escapes appended; every ordered pair over ~70 related strings (six well-formed timestamps and their look-alikes: separators removed / added, zone dropped, case, blanks, one digit changed) parsed back to back on one thread; sequences A, B, A of timestamps whose instants are 2^16, 2^31, 2^32, 2 x 2^32, 2^33 seconds apart, evaluated with nothing else running in the process; each string is evaluated through the unstable API (value and string-to-sign line compared with the reference parser) and end to end on the header carrier (bare, space-padded, and next to a Date header holding a well-formed fresh timestamp) and the query carrier; two or three validations whose requests differ only in the timestamp are multiplexed on one thread against a provider that is Pending first, in every order of polls (each verified against its own timestamp line). states = distinct reference instants + reject class; non-trivial = distinct strings".into(),
         bounds: json!({"strings": n}),
         exhaustive: true,
         assumptions: vec![
